@@ -1,6 +1,7 @@
 package main
 
 import (
+	"go/ast"
 	"go/constant"
 	"go/types"
 	"sort"
@@ -26,6 +27,8 @@ type tplRoot struct {
 	pred func(short string, arg tVal) bool
 	// name: obligation key when one function is explored under two set-ups ("" = fn)
 	name string
+	// limit: variants explored per input (0 = default)
+	limit int
 }
 
 func R(fn string, entry, end int, inputs func() []map[string]tVal) tplRoot {
@@ -234,50 +237,14 @@ func ruleC01Template(c *Ctx, r *Rep) {
 	debug := os.Getenv("VERIF_TPL_DEBUG")
 	tplCtx = c
 	totalVariants, totalUnsupported := 0, 0
+	var truncatedRoots []string
 	for _, root := range tplRoots {
 		fd := c.Decl(c.Gojq, "compiler."+root.fn)
 		if fd == nil {
 			r.Undecided("tpl:"+root.fn, token.NoPos, "not found")
 			continue
 		}
-		inl := map[string]bool{}
-		for k, v := range tplInline {
-			if k != root.fn {
-				inl[k] = v
-			}
-		}
-		for _, k := range tplRootInline[root.fn] {
-			inl[k] = true
-		}
-		var variants []tplVariant
-		tplCurrentPred = root.pred
-		if root.inputs == nil {
-			variants = tplExplore(c, fd, nil, inl, 3000)
-		} else {
-			for _, in := range root.inputs() {
-				in := in
-				bind := func(run *tplRun, env *tplEnv) {
-					for _, f := range fd.Type.Params.List {
-						for _, nm := range f.Names {
-							if v, ok := in[nm.Name]; ok {
-								env.define(run.info.Defs[nm], deepCopy(v))
-							}
-						}
-					}
-				}
-				vs := tplExplore(c, fd, bind, inl, 1500)
-				label := ""
-				if e, ok := in["e"]; ok && e.k == tvRec {
-					if nm, ok := e.fields["Name"]; ok && nm.k == tvStr {
-						label = e.desc + ":" + nm.s
-					}
-				}
-				for k := range vs {
-					vs[k].Label = label
-				}
-				variants = append(variants, vs...)
-			}
-		}
+		variants := tplVariantsOf(c, root, fd)
 		ok, unsup := 0, 0
 		var firstBad, firstBadTpl, firstBadChoices string
 		unsupReasons := map[string]int{}
@@ -330,6 +297,9 @@ func ruleC01Template(c *Ctx, r *Rep) {
 		}
 		totalVariants += len(variants)
 		totalUnsupported += unsup
+		if t := tplTruncatedInputs[root.fn+"/"+root.name]; t > 0 {
+			truncatedRoots = append(truncatedRoots, fmt.Sprintf("%s (%d inputs)", key0(root), t))
+		}
 		key := "tpl:" + root.fn
 		if root.name != "" {
 			key = "tpl:" + root.name
@@ -351,7 +321,86 @@ func ruleC01Template(c *Ctx, r *Rep) {
 			r.OK(key, fd.Pos(), "%s: %s (entry depth %d, end depth %d)", root.fn, detail, root.entry, root.end)
 		}
 	}
-	r.Info("tpl:census", token.NoPos, "%d variants explored, %d outside the modelled subset", totalVariants, totalUnsupported)
+	r.Info("tpl:census", token.NoPos, "%d variants explored, %d outside the modelled subset; exploration stopped at its variant limit (depth-first, remaining shape combinations not visited) for: %v", totalVariants, totalUnsupported, truncatedRoots)
+}
+
+func key0(root tplRoot) string {
+	if root.name != "" {
+		return root.name
+	}
+	return root.fn
+}
+
+// tplVariantsOf explores one root (memoised per process: several rules read the same templates).
+var tplVariantCache = map[string][]tplVariant{}
+
+// tplTruncatedInputs: per root, the number of inputs whose exploration stopped at the variant limit.
+var tplTruncatedInputs = map[string]int{}
+
+func tplVariantsOf(c *Ctx, root tplRoot, fd *ast.FuncDecl) []tplVariant {
+	ck := root.fn + "/" + root.name
+	if vs, ok := tplVariantCache[ck]; ok {
+		return vs
+	}
+	tplCtx = c
+	inl := map[string]bool{}
+	for k, v := range tplInline {
+		if k != root.fn {
+			inl[k] = v
+		}
+	}
+	for _, k := range tplRootInline[root.fn] {
+		inl[k] = true
+	}
+	var variants []tplVariant
+	tplCurrentPred = root.pred
+	limit := 1500
+	if root.limit > 0 {
+		limit = root.limit
+	}
+	if *flagTier == "thorough" {
+		limit *= 4
+	}
+	truncated := 0
+	if root.inputs == nil {
+		variants = tplExplore(c, fd, nil, inl, 2*limit)
+		if tplLastTruncated {
+			truncated++
+		}
+	} else {
+		for _, in := range root.inputs() {
+			in := in
+			bind := func(run *tplRun, env *tplEnv) {
+				for _, f := range fd.Type.Params.List {
+					for _, nm := range f.Names {
+						if v, ok := in[nm.Name]; ok {
+							env.define(run.info.Defs[nm], deepCopy(v))
+						}
+					}
+				}
+			}
+			vs := tplExplore(c, fd, bind, inl, limit)
+			if tplLastTruncated {
+				truncated++
+			}
+			label := ""
+			if e, ok := in["e"]; ok && e.k == tvRec {
+				if nm, ok := e.fields["Name"]; ok && nm.k == tvStr {
+					label = e.desc + ":" + nm.s
+				}
+			}
+			if nm, ok := in["name"]; ok && nm.k == tvStr {
+				label = "call:" + nm.s
+			}
+			for k := range vs {
+				vs[k].Label = label
+			}
+			variants = append(variants, vs...)
+		}
+	}
+	tplVariantCache[ck] = variants
+	tplTruncatedInputs[ck] = truncated
+	return variants
 }
 
 // tplCheck verifies one template; "" if consistent.
